@@ -25,8 +25,9 @@ def runs(tier):
                                                 KindPairs={('def', 'def'), ('cdef', 'cdef')})))
     out.append(dict(name='gzero', constants=dict(base, MaxD=3, Scenarios={'single'}, Ops=OPS,
                                                  KindPairs={('zero', 'zero'), ('zmid', 'zmid'), ('zfirst', 'zfirst')})))
+    # two sweeps in a row; mixed dtypes inside the train (first core real, the others complex)
     out.append(dict(name='g2', constants=dict(base, MaxD=3, RanksS={2} if q else {1, 2}, Scenarios={'single'}, Ops=OPS, MaxDepth=2,
-                                              KindPairs={('complex', 'complex')})))
+                                              KindPairs={('mixed1', 'mixed1')} if q else {('complex', 'complex'), ('mixed1', 'mixed1')})))
     # sweeps on objects whose cores are views with unusual memory layouts (results of rank_transpose / transpose)
     out.append(dict(name='gview', constants=dict(base, MaxD=3, RanksS={2, 3}, Scenarios={'single'}, MaxDepth=2, Lean=True,
                                                  OpsAt=[{'RankTranspose', 'Transpose'}, OPS], KindPairs={('real', 'real')})))
